@@ -497,6 +497,27 @@ Proof.
 Qed.
 Print Assumptions C14_predicates.
 
+(* ------------------------------------------------ from the CALL to called_with *)
+(* [apply_builtin b args] = push the arguments left to right, push their count, run the
+   builtin through the CALL wrapper (compile.rs:530-560, run.rs:149-156).  On any machine
+   whose stack pointer is inside the stack vector this establishes [called_with] without
+   touching heap or tables, so every theorem above applies to the real calling sequence;
+   [C14_apply_cons] is the instance for cons. *)
+Theorem C14_apply_builtin_called : forall b args s,
+  sp s < len (stack s) ->
+  exists s1, apply_builtin b args s = call_builtin b s1 /\ called_with s1 args /\
+             hp s1 = hp s /\ st s1 = st s.
+Proof. exact apply_builtin_called. Qed.
+Print Assumptions C14_apply_builtin_called.
+
+Theorem C14_apply_cons : forall s a b,
+  sp s < len (stack s) -> values_are_refs s -> val_ok s a -> val_ok s b ->
+  exists p s', apply_builtin cons_ [a; b] s = ROk (VPtr p) s' /\
+    ~ live (hp s) p /\ a_pair (abs s') p = Some (absv s a, absv s b) /\
+    pres s s' /\ values_are_refs s' /\ target_ok s' p.
+Proof. exact apply_cons. Qed.
+Print Assumptions C14_apply_cons.
+
 (* ======================================================================== OPEN *)
 (* Statements that are NOT proved yet.  They are kept here at full strength so that
    what is claimed above cannot be mistaken for the whole of C14; each is exercised by
